@@ -33,7 +33,9 @@ pub fn run(sh: &mut shell::Shell, cl: &CommandLine, cmd: &Command,
         // due to limitation of `parses::parser_line`,
         // `alias foo-bar='foo bar'` will become 'foo-bar=foo bar'
         // while `alias foo_bar='foo bar'` keeps foo_bar='foo bar'
-        let value = if cap[2].starts_with('"') || cap[2].starts_with('\'') {
+        // (a non-empty tag means the parser already removed the quotes
+        // around the value: what is left is the value itself)
+        let value = if tokens[1].0.is_empty() && (cap[2].starts_with('"') || cap[2].starts_with('\'')) {
             tools::unquote(&cap[2])
         } else {
             cap[2].to_string()
